@@ -1,6 +1,6 @@
 (* C18 — Reported Jacobians and parameter sensitivities match analytic derivatives. *)
 From Coq Require Import ZArith QArith Reals List Bool.
-From BS Require Import Base.Arith Model.Sensitivity Proofs.SensProofs.
+From BS Require Import Base.Arith Model.Sensitivity Proofs.SensProofs Gen.StencilsGen Proofs.TieStencils.
 Import ListNotations.
 Local Open Scope R_scope.
 
@@ -52,6 +52,43 @@ Example C18_example :
   compute_J ArithQ f [2; 5]%Q (1 # 100)%Q FourthOrder = [[20; 4]; [0; 3]]%Q.
 Proof. vm_compute. reflexivity. Qed.
 
+From Coq Require Import String.
+(* ---- Tie to the CURRENT source: the expressions stored into J[i,j] / Z[i] under each `method`, the perturbed coordinates at which
+   the samples are taken and the index roles are regenerated from bioscrape/analysis.py on this run (Gen/StencilsGen.v,
+   tools/tr_stencils.py); the weights equal the model's stencils for ANY arithmetic, the sample points are x +- h, x +- 2h, and
+   the source's own fourth-order expression at the source's own points is exact up to degree 4 with the stated error on degree 5. *)
+Theorem C18_source_stencils :
+  forall F (A : Arith F) f2h fh f0 fmh fm2h h,
+  gen_J_stencil_fourth_order_central_difference A f2h fh f0 fmh fm2h h = stencil A FourthOrder f2h fh f0 fmh fm2h h /\
+  gen_J_stencil_central_difference A f2h fh f0 fmh fm2h h = stencil A Central f2h fh f0 fmh fm2h h /\
+  gen_J_stencil_backward_difference A f2h fh f0 fmh fm2h h = stencil A Backward f2h fh f0 fmh fm2h h /\
+  gen_J_stencil_forward_difference A f2h fh f0 fmh fm2h h = stencil A Forward f2h fh f0 fmh fm2h h /\
+  gen_Z_stencil_fourth_order_central_difference A f2h fh f0 fmh fm2h h = stencil A FourthOrder f2h fh f0 fmh fm2h h /\
+  gen_Z_stencil_central_difference A f2h fh f0 fmh fm2h h = stencil A Central f2h fh f0 fmh fm2h h /\
+  gen_Z_stencil_backward_difference A f2h fh f0 fmh fm2h h = stencil A Backward f2h fh f0 fmh fm2h h /\
+  gen_Z_stencil_forward_difference A f2h fh f0 fmh fm2h h = stencil A Forward f2h fh f0 fmh fm2h h.
+Proof. exact @tie_stencils. Qed.
+
+Theorem C18_source_points :
+  forall v h : R,
+  gen_J_point_f_2h ArithR v h = v + 2 * h /\ gen_J_point_f_h ArithR v h = v + h /\ gen_J_point_f_0 v h = v /\
+  gen_J_point_f_mh ArithR v h = v + - h /\ gen_J_point_f_m2h ArithR v h = v + - (2 * h) /\
+  gen_Z_point_f_2h ArithR v h = v + 2 * h /\ gen_Z_point_f_h ArithR v h = v + h /\ gen_Z_point_f_0 v h = v /\
+  gen_Z_point_f_mh ArithR v h = v + - h /\ gen_Z_point_f_m2h ArithR v h = v + - (2 * h).
+Proof. exact tie_points. Qed.
+
+Theorem C18_source_indices : gen_J_indices = ["(i, j)"; "i"; "j"]%string /\ gen_Z_indices = ["i"; "i"; "param_name"]%string.
+Proof. exact tie_indices. Qed.
+
+Theorem C18_source_fourth_order :
+  forall a0 a1 a2 a3 a4 a5 x h, h <> 0 ->
+  let p := poly5 a0 a1 a2 a3 a4 a5 in
+  gen_J_stencil_fourth_order_central_difference ArithR
+    (p (gen_J_point_f_2h ArithR x h)) (p (gen_J_point_f_h ArithR x h)) (p (gen_J_point_f_0 x h))
+    (p (gen_J_point_f_mh ArithR x h)) (p (gen_J_point_f_m2h ArithR x h)) h
+  = dpoly5 a1 a2 a3 a4 a5 x - 4 * a5 * h^4.
+Proof. exact source_fourth_order_exact. Qed.
+
 Print Assumptions C18_fourth_order.
 Print Assumptions C18_central.
 Print Assumptions C18_forward.
@@ -60,3 +97,7 @@ Print Assumptions C18_orientation.
 Print Assumptions C18_affine_exact.
 Print Assumptions C18_Z_entries.
 Print Assumptions C18_parameters_restored.
+Print Assumptions C18_source_stencils.
+Print Assumptions C18_source_points.
+Print Assumptions C18_source_indices.
+Print Assumptions C18_source_fourth_order.
